@@ -76,7 +76,7 @@ Print Assumptions C02_init_valid_no_write.
 (* with an empty cache, anything that resolves to the id of a valid job (full id or unique prefix)
    opens a handle with that id whose statepoint() is exactly what the file holds; nothing is written *)
 Theorem C02_fresh_session_finds : forall frepr w si x i sp,
-  alookup x (s_cache (getS w si)) = None ->
+  alookup x (s_cache (getS w si)) = None -> alookup i (s_cache (getS w si)) = None ->
   resolve (w_fs w) (wsp (getS w si)) x = inl i ->
   valid_job frepr (w_fs w) (wsp (getS w si)) i sp ->
   exists w1 h, open_id w si x = (w1, inl h) /\ h_id (getH w1 h) = i /\
